@@ -112,11 +112,16 @@ class C18(CheckBase):
         self.gnss = gnss
         self.real_datetime = gnss.datetime
         self.gnss_file = gnss.__file__
+        import os
+        import sys
+        self.pkg_dir = os.path.dirname(os.path.abspath(gnss.__file__)) + os.sep
         from detsim.sched import wrap_module_locks
-        wrap_module_locks([gnss])          # a lock the readers may own must never block the baton holder
+        # a lock the readers may own (in gnss.py or in a helper module of the package) must never block the baton holder
+        wrap_module_locks([m for n, m in sorted(sys.modules.items())
+                           if m is not None and (n == 'geodepy' or n.startswith('geodepy.')) and not n.startswith('geodepy.tests')])
 
     def is_sut_file(self, fn):
-        return fn == self.gnss_file
+        return fn.startswith(self.pkg_dir)
 
     # ---------------------------------------------------------------- generate
     N_SUBSET_SWEEP = 20
@@ -321,11 +326,18 @@ class C18(CheckBase):
         clock = SimClock()
         gnss.open = fs.open
         fs.now = lambda: (clock.t - _dt.datetime(1970, 1, 1)).total_seconds()    # time stamps: read without a clock-read event
-        saved_os = fs.install_os_seam(gnss)
         undo_global = fs.install_global_seam()
-        saved_clock = install_clock_seam(gnss, clock)
-        if not saved_clock:
-            raise kernel.HarnessError('clock seam not found: geodepy.gnss has no module-level reference to datetime / time')
+        # the seams cover geodepy.gnss and every helper module of the package it may delegate to
+        import sys
+        mods = [gnss] + [m for n, m in sorted(sys.modules.items())
+                         if m is not None and m is not gnss and n.startswith('geodepy.') and not n.startswith('geodepy.tests')]
+        saved_seams = []
+        for m in mods:
+            saved_seams.append((m, fs.install_os_seam(m)))
+            saved_seams.append((m, install_clock_seam(m, clock)))
+        if not any(sv for m, sv in saved_seams if m is gnss or sv) or not any(
+                sv for (m, sv) in saved_seams[1::2]):
+            raise kernel.HarnessError('clock seam not found: no geodepy module has a module-level reference to datetime / time')
         viol = []
         stats = {}
         sigset = set()
@@ -350,8 +362,8 @@ class C18(CheckBase):
                 self._do_op(op, st, fs, clock, faults_at.get(op.get('id'), []), V, bump, log, sigset, clockset)
         finally:
             gnss.open = open
-            restore_seam(gnss, saved_clock)
-            restore_seam(gnss, saved_os)
+            for m, sv in saved_seams:
+                restore_seam(m, sv)
             undo_global()
         for t in clock.reads:
             clockset['sod'].add(t.hour * 3600 + t.minute * 60 + t.second)
@@ -865,10 +877,10 @@ class C18(CheckBase):
             code = 0
             try:
                 os.close(rd)
-                fn = self.gnss_file
+                is_sut = self.is_sut_file
 
                 def g(frame, event, arg):
-                    if frame.f_code.co_filename != fn:
+                    if not is_sut(frame.f_code.co_filename):
                         return None
                     return l
 
